@@ -328,6 +328,29 @@ pub fn run(args: &Args) -> i32 {
     });
     rep.merge(deep_big);
 
+    // long genomes with shallow nesting (a flat one, and one where every open is closed soon):
+    // length is a dimension of its own - a translation whose cost grows with the square of the
+    // length does not finish one genome within the hang budget
+    let long = run_shards(4, args.threads, 64 << 20, |s| {
+        let mut rep = Report::new();
+        let mut g = Xo::derive(args.seed, "C05-long", s as u64);
+        let len = [100_000usize, 400_000, 400_000, 1_000_000][s];
+        let genes: Vec<Gene> = (0..len)
+            .map(|p| match (s, p % 5) {
+                (0 | 1, _) => Gene::I(MI::PushInt(p as i64)),
+                (_, 0) => Gene::I(if g.chance(1, 3) { MI::IfElse } else { MI::When }),
+                (_, 3 | 4) => Gene::Close,
+                _ => Gene::I(MI::PushInt(p as i64)),
+            })
+            .collect();
+        vh_core::shard::set_context(format!("C05 long genome of {len} genes, nesting depth at most 2"));
+        rep.distinct(fnv_str(&format!("long{len}-{s}")));
+        rep.count("long-shallow-genomes");
+        check(&genes, "long-shallow", &mut rep);
+        rep
+    });
+    rep.merge(long);
+
     rep.table("scope", json!({
         "exhaustive_alphabet": ["Close", "Int.Push(position)", "Exec.When", "Exec.DupBlock", "Exec.IfElse"],
         "exhaustive_max_length": max_len,
